@@ -1,7 +1,7 @@
 import LunaVerif.Model.Usb2.StreamOutEndpoint
 import LunaVerif.Props.C18
 /-!
-# C13 — Bulk OUT endpoints ACK exactly the data they deliver   (PARTIAL)
+# C13 — Bulk OUT endpoints ACK exactly the data they deliver   (one-step lemmas; history level: `Props/C13Stream.lean`)
 
 "For any host sequence of OUT and PING transactions, including CRC-corrupted packets, retransmissions
 with a repeated data toggle and any consumer back-pressure, the endpoint ACKs a packet only if its
@@ -29,10 +29,11 @@ What is proved here, for every state and every input of the cycle-level model:
 * `transfer_active` changes only when a packet with data is committed or a zero-length packet is
   accepted (`transfer_active_only_on_accept`).
 
-PARTIAL: `out_stream_exact`, `last_iff_short_packet_end`, `first_iff_transfer_start` over whole histories
-are not proved as theorems (they need the composition with C28's event theorem and C18's refinement
-along the history); they are checked by the monitor on the real gateware, and the three former
-counterexamples are kernel-evaluated on the model below.
+The history-level theorems (`out_stream_exact`, `nak_iff_cannot_take`, `ack_implies_delivered_or_repeat`,
+`last_iff_short_packet_end`, `first_iff_transfer_start`, for every `LegalHost` history) are in
+`Props/C13Stream.lean` and `Props/C13Handshake.lean` (layers: `Lemmas/C13Host.lean` detector by phase,
+`Lemmas/C13Write.lean` / `Lemmas/C13Fin.lean` write-side invariant, C18's `Rel` / `rel_step` for the FIFO).
+The three former counterexamples are kernel-evaluated on the model below.
 -/
 namespace LunaVerif.StreamOutEndpoint
 open LunaVerif
